@@ -24,7 +24,7 @@ RULE += ('; also: members declared from the persist() hook or saved manually, an
 ASSUMPTIONS = ['custom loaders are constructible without arguments (the saved state records the loader class)', 'exceptions compare by type and args']
 REQUIRED = ['roundtrips', 'kinds/plain', 'kinds/method', 'kinds/savable', 'kinds/future', 'future_states/pending', 'future_states/result',
             'future_states/exception', 'future_states/exception-falsy', 'future_states/cancelled', 'future_states/result-savable', 'manually_saved', 'hook_declared', 'loader/default', 'loader/global', 'loader/persave', 'loader/unknown', 'loader/ctxreuse',
-            'mutation_probes', 'inherited_checks', 'rebound_name_probes', 'second_saves_same_context', 'refusing_loader_probes']
+            'mutation_probes', 'inherited_checks', 'rebound_name_probes', 'second_saves_same_context', 'refusing_loader_probes', 'global_loader_derived_from_recorded', 'loader/persave-anon']
 BOUNDS = {'quick': '150 shapes x 4 loader modes', 'thorough': '3000 shapes x 4 loader modes'}
 
 PLAIN_VALUES = [1, 's', None, [1, [2, 3]], {'k': [1, 2], 'd': {'e': 5}}, (1, 2), [], {}, ('run', [10, 20], {'depth': 1}), {'t': ([1], 2)}]
@@ -68,6 +68,25 @@ class LenientCountingLoader(CountingLoader):
         return loaded
 
 
+class Decoy(Savable):
+    """What a loader that resolves names its own way hands out for every generated class."""
+
+    def __init__(self, *args, **kwargs):
+        pass
+
+
+class RedirectingLoader(LenientCountingLoader):
+    """A global loader whose class derives from the custom loader's, with a resolution of its own: every generated class is the
+    ``Decoy`` to it.  A state that records the custom loader is none of its business."""
+
+    def load_object(self, identifier):
+        if isinstance(identifier, str) and identifier.startswith('custom!') and not identifier.startswith('custom!!'):
+            return Decoy
+        return super().load_object(identifier)
+
+
+generated.register(Decoy, 'Decoy')
+generated.register(RedirectingLoader, 'RedirectingLoader')
 generated.register(CountingLoader, 'CountingLoader')
 generated.register(LenientCountingLoader, 'LenientCountingLoader')
 
@@ -79,6 +98,9 @@ def gen_cases(tier, seed):
         shape = rand_shape(rng, 2)
         for mode in ('default', 'global', 'persave', 'unknown', 'ctxreuse'):
             yield {'shape': shape, 'mode': mode, 'i': i}
+        # 'persave-globalsub': saved with a per-save custom loader, loaded while a global loader of a derived class (resolving names its
+        # own way) is installed; 'persave-anon': the per-save loader's class has no importable name, so it cannot be recorded
+        yield {'shape': shape, 'mode': 'persave-globalsub' if i % 2 else 'persave-anon', 'i': i}
 
 
 def rand_shape(rng, nest):
@@ -353,14 +375,21 @@ def run_case(case):
     try:
         if mode == 'global':
             loaders.set_object_loader(CountingLoader())
-        elif mode == 'persave':
+        elif mode in ('persave', 'persave-globalsub'):
             save_ctx = persistence.LoadSaveContext(loader=CountingLoader())
+        elif mode == 'persave-anon':
+            anon = type('SessionLoader', (CountingLoader,), {'__module__': '__main__'})  # (as if defined in an interactive session)
+            save_ctx = persistence.LoadSaveContext(loader=anon())
         if hooked and case['i'] % 2:
             _ancestor_saves(chain, shape, viol, obs, V, 'before')  # instances of the base classes are saved first
         obj = cls(shape['members'])
         try:
             state = obj.save(save_ctx)
         except BaseException as exc:  # noqa: BLE001
+            if mode == 'persave-anon' and isinstance(exc, ValueError):
+                # the loader that was used cannot be recorded: refusing to save is the answer that stores nothing wrong
+                obs['unrecordable_loader_refused'] = 1
+                return _res(case, viol, obs, kinds)
             fs = sorted(set(v[1] for v in _all_members(shape) if v[0] == 'future'))
             viol.append(V('save-raised', 'save-raised:%s:%s' % (type(exc).__name__, '+'.join(fs)), 'save() raised %r (future states present: %s)' % (exc, fs)))
             return _res(case, viol, obs, kinds)
@@ -459,6 +488,12 @@ def run_case(case):
                 viol.append(V('ctxreuse-load-raised', 'ctxreuse-load-raised:%s' % type(exc).__name__,
                               'third load through a reused context raised %r after the global loader was reset' % (exc,)))
             load_ctx = persistence.LoadSaveContext()
+        if mode == 'persave-anon':
+            obs['unrecordable_loader_saved'] = 1  # (saved all the same: then it has to come back as what it was, judged below)
+            save_ctx = None
+        if mode == 'persave-globalsub':
+            loaders.set_object_loader(RedirectingLoader())
+            obs['global_loader_derived_from_recorded'] = 1
         before_loads = CountingLoader.loads
         try:
             new = Savable.load(state, load_ctx)
@@ -469,8 +504,10 @@ def run_case(case):
         obs['custom_loads'] = CountingLoader.loads - before_loads
         if mode in ('global', 'persave') and CountingLoader.loads - before_loads == 0:
             viol.append(V('custom-loader-unused', 'custom-loader-unused:%s' % mode, 'the custom loader was never consulted on load (mode %s)' % mode))
+        if mode == 'persave-globalsub':
+            loaders.set_object_loader(None)
         if type(new) is not cls:
-            viol.append(V('wrong-class', 'wrong-class', 'recreated a %s, expected %s' % (type(new).__name__, cls.__name__)))
+            viol.append(V('wrong-class', 'wrong-class%s' % (':' + mode if mode.startswith('persave-') else ''), 'recreated a %s, expected %s (loader mode %s)' % (type(new).__name__, cls.__name__, mode)))
             return _res(case, viol, obs, kinds)
         compare(shape, new, 'obj', obs, viol, V)
         if hooked:
